@@ -3,6 +3,7 @@ import TantivyModel.Proofs.Wand
 import TantivyModel.Proofs.PruneEarly
 import TantivyModel.Proofs.WandMachine
 import TantivyModel.Proofs.Bm25Q
+import TantivyModel.Proofs.BlockWandMain
 /-!
 # C06 — Top-K collection returns exactly the best K, with deterministic ties
 
@@ -283,17 +284,32 @@ theorem C06_wand_pivot_moves_valid (θ : Nat) (ps : List Wand.Postings) (ms : Li
     (Wand.findPivot θ ts 0 = none → ∀ d, Wand.unionTotal ps d ≤ θ) :=
   Wand.pivot_dead θ ps ms hlen ts hperm hs hub
 
-/-
-NOT YET PROVED (stated): `C06_wand_union_skipsBelow`, `C06_wand_intersection_skipsBelow` — the
-complete `block_wand` loop (block-max refinement of the pivot, `block_max_was_too_low_advance_one_scorer`,
-`align_scorers`, `advance_all_scorers_on_pivot`) and `block_wand_intersection` (leader windows,
-per-candidate suffix bounds) equal the exhaustive loop given `UB_max` and `UB_block`. Proved so far: the
-single-scorer driver completely; for the union driver the two skip justifications (pivot rule,
-block rule) and the theorem that justified skips — even early ones — give the exhaustive result.
-Missing: the loop model showing that `block_wand` skips ONLY by these two rules and scores the
-pivot with all matching scorers aligned; `block_wand_intersection` is not modelled. Both are tied
-to the property by the end-to-end and callback-level comparisons.
--/
+/-- `block_wand` (union of two or more term scorers + TopDocs), the CONCRETE loop: the Lean mirror
+`BlockWand.blockWand` follows the Rust function statement by statement (`find_pivot_doc`, the
+shallow seeks and the block-max sum, `block_max_was_too_low_advance_one_scorer` with
+`restore_ordering`, `align_scorers` with `swap_remove`, `advance_all_scorers_on_pivot`, the
+`is_sorted` debug assertion) and is compared call by call and bit by bit with
+`Weight::for_each_pruning` by the harness (`bwand`). For EVERY callback whose thresholds never
+decrease: whenever the mirrored loop completes, it ends in the state of the exhaustive loop over
+all documents `0 .. TERMINATED` with the total score `Σ clauses` — i.e. it made exactly the
+callback calls of the exhaustive loop for documents above the running threshold — PROVIDED
+each scorer's postings are ascending and below `TERMINATED`, bounded by its `max_score`
+(`UB_max`, false on the pinned tree: `C06_UB_max_counterexample`), and every posting is bounded
+by the block-max of its block (`UB_block`) (`BlockWand.WF`). In the proof every iteration is a
+move of the pruning machine `Wand.Run`: the too-low branch and `align_scorers` are dead moves
+(pivot rule with `UB_max`, block rule with `UB_block`), the scoring step evaluates the smallest
+current document with all scorers containing it aligned, `None` from `find_pivot_doc` is a
+justified stop. The outcomes `assertFailed` (the mirrored `debug_assert!(is_sorted)`),
+`skipAhead` (a skip reader not on the pivot's block after `shallow_seek`; cannot happen for
+`doc() <= pivot`, reported by the harness if the model ever answers it) and `outOfFuel` are
+not covered by the statement. -/
+theorem C06_wand_union_skipsBelow {σ : Type} (cb : σ → Nat → Nat → σ × Nat) (R : σ → Nat → Prop)
+    (hcb : Wand.MonoCb cb R) (fuel : Nat) (s : σ) (θ : Nat) (hR : R s θ)
+    (scorers : List (BlockWand.TS Nat)) (hwf : ∀ x, x ∈ scorers → BlockWand.WF x) (out : σ × Nat)
+    (h : BlockWand.blockWand cb fuel (s, θ) scorers = .ok out) :
+    out = Wand.exhRange cb (Wand.unionTotal (scorers.map (·.rest))) 0 BlockWand.T (s, θ) :=
+  BlockWand.blockWand_eq_exhaustive hcb fuel s θ hR scorers hwf out h
+
 
 /-! ## the score bounds (exact arithmetic) and the refuted hypothesis `UB_max` -/
 
